@@ -138,10 +138,6 @@ namespace OLP.Shell
 open OLP OLP.KV
 variable {K V C E α T H D : Type} [DecidableEq K] [DecidableEq V] [DecidableEq C] [DecidableEq H]
 
-/-- end-of-block hooks are gas-shift invariant as well -/
-def HooksGasBlind (cfg : Cfg K V) (hs : Handlers K V C E T H D) : Prop :=
-  ∀ h, ∀ hk ∈ hs.endb h, GasShiftInv cfg hk.2
-
 /-- two nodes that differ only in the level of the deliver state's gas counter (and possibly in
     where the singletons are aimed) -/
 def ShiftNode (d : Int) (n n' : Node K V C T H D) : Prop :=
@@ -229,10 +225,6 @@ structure RoomBlind (cfg : Cfg K V) (hs : Handlers K V C E T H D) : Prop where
   monoD : ∀ tx, GasMono cfg (hs.deliver tx)
   monoF : ∀ tx g, GasMono cfg (hs.fee tx g)
 
-/-- end-of-block hooks are gas-shift invariant with room and never lower the counter -/
-def HooksRoomBlind (cfg : Cfg K V) (hs : Handlers K V C E T H D) : Prop :=
-  ∀ h, ∀ hk ∈ hs.endb h, RoomShiftInv cfg hk.2 ∧ GasMono cfg hk.2
-
 /-- the transactions of a block that did not fail -/
 def survivors (txs : List T) (rs : List (TxRes D)) : List T :=
   ((txs.zip rs).filter (fun p => p.2.ok)).map (·.1)
@@ -245,7 +237,8 @@ def midBlock (cfg : Cfg K V) (hs : Handlers K V C E T H D) (e : E) (n : Node K V
   if ended then endBlock cfg hs e n1 else n1
 
 /-- the gas meter of the deliver state when the block `txs` has been delivered and EndBlock has
-    run (just before Commit) -/
+    run (just before Commit). The block hooks run unmetered (`runHook`), so this is the meter
+    after the last transaction (`endBlock_gas`): the total of the block's transactions. -/
 def blockEndGas (cfg : Cfg K V) (hs : Handlers K V C E T H D) (e : E) (n : Node K V C T H D)
     (txs : List T) : Gas :=
   (endBlock cfg hs e (deliverAll cfg hs e (beginBlock cfg hs e n) txs).1).dlv.gas
